@@ -5,11 +5,23 @@ use crate::lay::HEv;
 use crate::rng::Rng;
 
 pub fn gen(tier: &str, seed: u64) -> Vec<String> {
-    let mut r = Rng::new(seed ^ 0xCA11);
     let n = if tier == "thorough" { 30000 } else { 2500 };
+    let mut lines = gen_part(seed ^ 0xCA11, n, false);
+    // chv2: the same grammar with a `defchordsv2` table (appended: the cases above are what they were)
+    lines.extend(gen_part(seed ^ 0xCA11C2, n / 3, true));
+    lines
+}
+
+/// whole-grammar kanata-level cases with a `defchordsv2` table, with processing-loop gaps in a third
+pub fn gen_chv2(seed: u64, n: usize) -> Vec<String> {
+    gen_part(seed ^ 0xC09CA11, n, true)
+}
+
+fn gen_part(seed: u64, n: usize, chv2: bool) -> Vec<String> {
+    let mut r = Rng::new(seed);
     let mut lines = vec![];
     for i in 0..n {
-        let (cfg, keys) = gen_full_cfg(&mut r, true);
+        let (cfg, keys) = if chv2 { crate::chv2gen::gen_full_cfg_chv2(&mut r, true) } else { gen_full_cfg(&mut r, true) };
         let n_ev = if i % 12 == 0 { r.range(40, 80) } else { r.range(1, 20) } as usize;
         let gaps: &[u32] = match i % 4 {
             0 => &[0, 1, 2, 3, 5],
@@ -30,6 +42,15 @@ pub fn gen(tier: &str, seed: u64) -> Vec<String> {
             if !down.is_empty() && r.chance(1, 6) {
                 kh.push(KEv::Rep(*r.pick(&down)));
             }
+        }
+        if chv2 && i % 3 == 2 {
+            // the processing loop: tick runs become gaps (can_block / chords-v2 cool-down clause)
+            for e in kh.iter_mut() {
+                if let KEv::L(HEv::Tick(n)) = e {
+                    *e = KEv::Gap(*n);
+                }
+            }
+            kh.retain(|e| !matches!(e, KEv::Rep(_)));
         }
         lines.push(mk_kline("KAN", false, &cfg, &kh));
     }
